@@ -6,6 +6,7 @@ import (
 	"fmt"
 	"go/token"
 	"go/types"
+	"sort"
 	"strings"
 
 	"golang.org/x/tools/go/ssa"
@@ -26,6 +27,45 @@ func (c *FnCtx) newFrame(fn *ssa.Function, parent *Frame) *Frame {
 	}
 	fr.spec = c.eng.findSpec(fn)
 	fr.loops = findLoops(fn)
+	// call-site ordinals by source position (stable under block reordering)
+	fr.occOf = map[*ssa.CallCommon]int{}
+	type site struct {
+		cc  *ssa.CallCommon
+		pos token.Pos
+		idx int
+	}
+	by := map[string][]site{}
+	n := 0
+	for _, b := range fn.Blocks {
+		for _, in := range b.Instrs {
+			var cc *ssa.CallCommon
+			switch x := in.(type) {
+			case *ssa.Call:
+				cc = &x.Call
+			case *ssa.Defer:
+				cc = &x.Call
+			case *ssa.Go:
+				cc = &x.Call
+			}
+			if cc == nil {
+				continue
+			}
+			name := calleeShort(c.eng, cc.StaticCallee(), calleeName(cc))
+			by[name] = append(by[name], site{cc, in.Pos(), n})
+			n++
+		}
+	}
+	for _, ss := range by {
+		sort.SliceStable(ss, func(i, j int) bool {
+			if ss[i].pos != ss[j].pos {
+				return ss[i].pos < ss[j].pos
+			}
+			return ss[i].idx < ss[j].idx
+		})
+		for i, s := range ss {
+			fr.occOf[s.cc] = i
+		}
+	}
 	for _, l := range fr.loops {
 		if fr.spec != nil {
 			l.spec = fr.spec.Loops[l.ord]
@@ -547,6 +587,8 @@ func (c *FnCtx) execUnOp(bc *blockCtx, x *ssa.UnOp) {
 	case token.ARROW:
 		// channel receive
 		c.note("channel receive: value havoc, ghost waited(ch) set")
+		// a receive from a nil channel never returns
+		c.sc.assert(sImp(bc.reach, "(not (= "+v.T+" 0))"))
 		c.heapStore(bc.st, "CH:waited", arrSort("Bool"), v.T, "true")
 		var res Val
 		if x.CommaOk {
